@@ -83,8 +83,12 @@ def _clear_member_fingerprints(target_dir):
                 shutil.rmtree(os.path.join(fp, d), ignore_errors=True)
 
 
-def extract(config, repo=None, fresh=False, target_dir=None, quiet=True):
-    """Return (facts_dir, digest, info). Re-extracts unless a cache entry for the digest exists."""
+def extract(config, repo=None, fresh=False, target_dir=None, quiet=True, reader=None):
+    """Return (facts_dir, digest, info). Re-extracts unless a cache entry for the digest exists.
+
+    `reader(facts_dir, digest, info)`, when given, is called while the per-configuration lock is still held (downgraded to a shared lock) and
+    its result is returned instead: checks that run side by side — one of them re-extracting (`fresh`) or pruning the cache — never read a
+    facts directory that another process is deleting or rewriting."""
     repo = repo or REPO
     digest, nfiles = repo_digest(repo)
     os.makedirs(CACHE, exist_ok=True)
@@ -92,8 +96,24 @@ def extract(config, repo=None, fresh=False, target_dir=None, quiet=True):
     out_dir = os.path.join(CACHE, "facts", f"{config}-{digest}")
     stamp = os.path.join(out_dir, "OK")
     lock_path = os.path.join(CACHE, f"lock-{config}")
-    with open(lock_path, "w") as lock:
+    with open(lock_path, "a") as lock:
         fcntl.flock(lock, fcntl.LOCK_EX)
+        res = _extract_locked(config, repo, fresh, target_dir, digest, nfiles, out_dir, stamp)
+        if reader is None:
+            return res
+        for _ in range(3):
+            fcntl.flock(lock, fcntl.LOCK_SH)      # (the conversion may let another writer in first: it then leaves a complete directory)
+            if os.path.exists(stamp):
+                return reader(*res)
+            fcntl.flock(lock, fcntl.LOCK_EX)
+            res = _extract_locked(config, repo, False, target_dir, digest, nfiles, out_dir, stamp)
+        fcntl.flock(lock, fcntl.LOCK_EX)
+        res = _extract_locked(config, repo, False, target_dir, digest, nfiles, out_dir, stamp)
+        return reader(*res)
+
+
+def _extract_locked(config, repo, fresh, target_dir, digest, nfiles, out_dir, stamp):
+    if True:
         if os.path.exists(stamp) and not fresh:
             with open(stamp) as fh:
                 info = json.load(fh)
